@@ -242,9 +242,6 @@ def _compute_checksum(decompressed_fields: List[Tuple[str, Buffer]], rule_field_
         header_checksum = (header_checksum + carry) & 0xffff 
     
     checksum_value = ~header_checksum & 0xffff
-
-    # if checksum is 0x0000 return 0xffff
-    checksum_value = 0xffff if checksum_value == 0x0000 else checksum_value    
     checksum_buffer: Buffer = Buffer(content=checksum_value.to_bytes(2, 'big'), length=16)
     return checksum_buffer
 
